@@ -64,7 +64,8 @@ def yenc(v):
         return [3]
     if isinstance(v, list):
         return [4, [yenc(x) for x in v]]
-    return [5, [str(k) for k in v]] if isinstance(v, dict) else [5, []]
+    # yaml.safe_dump writes mapping keys sorted: that is the order the implementation reads
+    return [5, sorted(str(k) for k in v)] if isinstance(v, dict) else [5, []]
 
 
 def gen_case(rng, options):
